@@ -425,6 +425,9 @@ class AsyncServer(base_server.BaseServer):
         if delete_it:
             self.logger.info('Disconnecting %s [%s]', sid, namespace)
             eio_sid = self.manager.pre_disconnect(sid, namespace=namespace)
+            if eio_sid is None:
+                # somebody else is already disconnecting this client
+                return
             await self._send_packet(eio_sid, self.packet_class(
                 packet.DISCONNECT, namespace=namespace))
             try:
@@ -584,7 +587,9 @@ class AsyncServer(base_server.BaseServer):
         sid = self.manager.sid_from_eio_sid(eio_sid, namespace)
         if not self.manager.is_connected(sid, namespace):  # pragma: no cover
             return
-        self.manager.pre_disconnect(sid, namespace=namespace)
+        if self.manager.pre_disconnect(sid, namespace=namespace) is None:
+            # somebody else is already disconnecting this client
+            return
         try:
             await self._trigger_event('disconnect', namespace, sid,
                                       reason or self.reason.CLIENT_DISCONNECT)
